@@ -1086,7 +1086,7 @@ Qed.
 Lemma cstep_inv c st s o : wf c -> wfst c st -> CInv c st s -> CInv c st (fst (cstep repaired c s o)).
 Proof.
   intros W WS CI. pose proof CI as (I & R & S).
-  destruct o as [sid k dp obs|sid k mk mb dp obs|sid k dl|sid mk mb bulk|mk mb|]; cbn [cstep].
+  destruct o as [sid k dp obs|sid k mk mb dp obs|sid k dl|sid mk mb bulk obs|mk mb|]; cbn [cstep].
   - destruct (existsb (N.eqb sid) (cp_sess s)); [exact CI|]. apply pba_activate_inv; auto.
   - destruct (existsb (N.eqb sid) (cp_sess s)); [exact CI|].
     unfold restore; cbn [repaired v_validate v_rollback].
@@ -1102,7 +1102,8 @@ Proof.
     destruct (blocks_of (cp_pool s) k) as [|b0 r0] eqn:B; cbn [fst]; [exact CI|].
     unfold CInv; cbn [cp_pool cp_rev]. split; [apply release_inv; auto|].
     rewrite <- B. apply release_comp_inv with (st := st); auto.
-  - destruct (negb (bulk =? 0)); [exact CI|].
+  - destruct (negb (bulk =? 0)).
+    { destruct (existsb (N.eqb sid) (cp_sess s)); [exact CI|]. apply pba_activate_inv; auto. }
     unfold restore; cbn [repaired v_validate].
     destruct (restore_repaired c (cp_pool s) mk mb true) as [p'|] eqn:H; cbn [fst]; [|exact CI].
     eapply restore_commit_inv; eauto.
